@@ -63,14 +63,12 @@ func TestSmoke(t *testing.T) {
 	if ups := w.updateClientMsgs(c, l.ConsClient, w.P); len(ups) > 0 {
 		rs = append(rs, TxSpec{Signer: c.relayer, Msgs: ups})
 	}
-	msgs, n := w.recvMsgs(l.ToCons, 10, w.P, c)
-	rs = append(rs, TxSpec{Signer: c.relayer, Msgs: msgs})
+	rs = append(rs, w.relayBatch(l, &l.ToCons, 10, w.P, c, "relay-recv")...)
 	w.Tick()
 	outs = w.Produce(c, rs, nil)
 	for _, o := range outs {
 		t.Logf("relay: %s", logOf(o))
 	}
-	l.ToCons = l.ToCons[n:]
 	t.Logf("acks to prov %d; consumer engine %v", len(l.AcksToProv), c.Engine)
 	t.Logf("violations: %v", w.Violations())
 }
